@@ -20,7 +20,7 @@ Proof. done. Qed.
 Lemma shrinks_trans m1 m2 m3 : shrinks m1 m2 → shrinks m2 m3 → shrinks m1 m3.
 Proof. intros (A1 & A2 & A3) (B1 & B2 & B3). split; [etrans; eauto|]. split; [eauto|]. set_solver. Qed.
 Lemma quiet_shrinks m m' : quiet m m' → shrinks m m'.
-Proof. intros (-> & _). done. Qed.
+Proof. unfold shrinks. intros (-> & _). done. Qed.
 
 (* ---------------------------------------------------------------- quiet folds that cannot fail *)
 Definition doneq (m : M) (r : outcome M) : Prop := ∃ m', r = Done m' ∧ quiet m m'.
@@ -92,4 +92,83 @@ Proof.
     * by apply mark_svc_calls.
     * by apply mark_calls_bound.
     * by eapply mark_caller_live.
+Qed.
+
+(* ---------------------------------------------------------------- settle_one *)
+Lemma MI_pop_quiet m m' r :
+  MI m → quiet m m' → doneq m' r → ∃ m'', r = Done m'' ∧ MI m'' ∧ shrinks m m''.
+Proof.
+  intros H Hq (m'' & -> & Hq'). exists m''. split; [done|].
+  split; [eapply MI_quiet; [|exact H]; eauto using quiet_trans|].
+  apply quiet_shrinks. eauto using quiet_trans.
+Qed.
+
+Lemma settle_one_spec m :
+  MI m →
+  match settle_one m with
+  | None => w_rm_call (mw m) = [] ∧ w_abort (mw m) = []
+  | Some r => ∃ m', r = Done m' ∧ MI m' ∧ shrinks m m'
+  end.
+Proof.
+  intros H. unfold settle_one.
+  destruct (w_remove_conns (mw m)) as [|[c sd] r] eqn:E1.
+  2:{ set (mp := m <| mw; w_remove_conns := r |>).
+      assert (quiet m mp) as Hq by done.
+      destruct (shutdown_conn_spec mp c sd (MI_quiet _ _ Hq H)) as (m' & -> & H' & S1 & S2 & S3).
+      exists m'. split; [done|]. split; [done|]. split; [done|]. split; [done|].
+      rewrite S1, dom_delete_L. set_solver. }
+  destruct (w_unsub_ev (mw m)) as [|[[c s] e] r] eqn:E2.
+  2:{ eapply MI_pop_quiet; [done| |apply guarded_send_doneq]. done. }
+  destruct (w_unsub_all (mw m)) as [|[c s] r] eqn:E3.
+  2:{ eapply MI_pop_quiet; [done| |apply guarded_send_doneq]. done. }
+  destruct (w_svc_destroyed (mw m)) as [|[c s] r] eqn:E4.
+  2:{ eapply MI_pop_quiet; [done| |apply guarded_send_doneq]. done. }
+  destruct (w_rm_call (mw m)) as [|[[serial c] result] r] eqn:E5.
+  2:{ set (mp := m <| mw; w_rm_call := r |>). cbn.
+      unfold MI, MX, MO in H. rewrite E5 in H.
+      destruct (conns (ms m) !! c) as [cs|] eqn:Ec.
+      - destruct (rm_pop_live _ _ _ _ _ _ _ Ec (iv_ce _ _ _ _ _ H) (iv_ec _ _ _ _ _ H)
+                    (iv_qe _ _ _ _ _ H) (iv_qn _ _ _ _ _ H)) as ([p Hp] & P1 & P2 & P3 & P4).
+        rewrite Hp.
+        match goal with |- ∃ m', send_or_remove ?a ?c ?x ?f = _ ∧ _ =>
+          destruct (send_or_remove_done a c x f) as (m3 & -> & Hs3 & Hq3 & Ha3) end.
+        { cbn. rewrite lookup_insert. eauto. }
+        exists m3. split; [done|].
+        assert (dom (conns (ms m3)) = dom (conns (ms m))) as Hdom.
+        { rewrite Hs3. cbn. rewrite dom_insert_L. apply elem_of_dom_2 in Ec. set_solver. }
+        split.
+        + unfold MI, MX, MO. rewrite Hdom, Hs3, Hq3, Ha3. cbn. mx_frame H.
+        + unfold shrinks. rewrite Hdom, Hs3. cbn. done.
+      - destruct (rm_pop_skip _ _ _ _ _ _ Ec (iv_ec _ _ _ _ _ H) (iv_qe _ _ _ _ _ H)) as [P1 P2].
+        exists mp. split; [done|]. split; [|done]. unfold MI, MX, MO. subst mp. cbn. mx_frame H.
+        apply Hqn. }
+  destruct (w_create_obj (mw m)) as [|[u c] r] eqn:E6.
+  2:{ eapply MI_pop_quiet; [done| |apply bus_doneq]. done. }
+  destruct (w_create_svc (mw m)) as [|[[[ou oc] su] sc] r] eqn:E7.
+  2:{ eapply MI_pop_quiet; [done| |apply bus_doneq]. done. }
+  destruct (w_destroy_svc (mw m)) as [|[[[ou oc] su] sc] r] eqn:E8.
+  2:{ eapply MI_pop_quiet; [done| |apply bus_doneq]. done. }
+  destruct (w_destroy_obj (mw m)) as [|[u c] r] eqn:E9.
+  2:{ eapply MI_pop_quiet; [done| |apply bus_doneq]. done. }
+  destruct (w_abort (mw m)) as [|[b callee] r] eqn:E10; [done|].
+  set (mp := m <| mw; w_abort := r |>).
+  destruct (abort_call_spec mp b callee) as (m' & -> & H' & Hb & Hd).
+  { subst mp. cbn. unfold MI, MX, MO in H. rewrite E5, E10 in H. rewrite E5. exact H. }
+  exists m'. split; [done|]. split; [done|]. unfold shrinks. rw_fields Hb. rewrite Hd. done.
+Qed.
+
+(* ---------------------------------------------------------------- settle *)
+Lemma settle_spec fuel : ∀ m,
+  MI m →
+  match settle fuel m with
+  | Done m' => MI m' ∧ shrinks m m' ∧ w_rm_call (mw m') = [] ∧ w_abort (mw m') = []
+  | Fail _ => False
+  | Panic s => s = 0
+  end.
+Proof.
+  induction fuel as [|fuel IH]; intros m H; cbn; pose proof (settle_one_spec m H) as Hs;
+    destruct (settle_one m) as [r|]; try (destruct Hs; done);
+    destruct Hs as (m' & -> & H' & Hsh); [done|].
+  specialize (IH m' H'). destruct (settle fuel m'); [|done..].
+  destruct IH as (I1 & I2 & I3 & I4). eauto using shrinks_trans.
 Qed.
